@@ -31,6 +31,7 @@ type link struct {
 	rclosed  bool   // reader closed its own end
 	bound    int    // >0: writer blocks while len(inflight)+len(rbuf) >= bound
 	stalled  bool   // delivery administratively stalled (slow peer)
+	discard  bool   // delivered bytes are consumed by the simulator itself (no reader)
 
 	rdeadline time.Time
 	rdTimer   *time.Timer
@@ -98,6 +99,11 @@ func NewStreamConn(sim *Sim, name string) *StreamConn {
 func (c *StreamConn) TapAB(f func(p []byte)) { c.ab.tap = f }
 func (c *StreamConn) TapBA(f func(p []byte)) { c.ba.tap = f }
 
+// DiscardBA says that nobody reads end A: bytes delivered B -> A are consumed by
+// the simulator (which sees them through TapBA) instead of being buffered.
+func (c *StreamConn) DiscardBA() { c.ba.discard = true }
+func (c *StreamConn) DiscardAB() { c.ab.discard = true }
+
 // BoundAB bounds the bytes buffered from A to B (back-pressure on A's writes).
 func (c *StreamConn) BoundAB(n int) { c.ab.bound = n }
 func (c *StreamConn) BoundBA(n int) { c.ba.bound = n }
@@ -121,7 +127,9 @@ func (l *link) deliver(n int) {
 	if n > len(l.inflight) {
 		n = len(l.inflight)
 	}
-	l.rbuf = append(l.rbuf, l.inflight[:n]...)
+	if !l.discard {
+		l.rbuf = append(l.rbuf, l.inflight[:n]...)
+	}
 	l.inflight = l.inflight[n:]
 	if len(l.inflight) == 0 {
 		l.inflight = nil
